@@ -240,10 +240,10 @@ theorem start_sound {now : Int} {σ : Valuation} {row : Row} {txt : List BAtom} 
           | exact cmp_sound_start hsafe hev (Or.inr hc) rfl (Or.inl rfl) (by simpa [Rhs.go] using hgo)
           | exact cmp_sound_start hsafe hev (Or.inr hc) rfl (Or.inr rfl) (by simpa [Rhs.go] using hgo)
     all_goals
-      obtain ⟨c, o, n, u, hm, hc, ho, hgo⟩ := relPat_some hmem.symm
+      obtain ⟨c, o, n, u, cs, hm, hc, ho, hgo⟩ := relPat_some hmem.symm
       obtain ⟨hsafe, hev⟩ := hall _ hm
       simp only [if_true] at ho
-      exact cmp_sound_start hsafe hev (Or.inl hc) rfl ho (by simp [Rhs.go, hgo])
+      exact cmp_sound_start hsafe hev (Or.inl hc) rfl ho hgo
 
 theorem end_sound {now : Int} {σ : Valuation} {row : Row} {txt : List BAtom} {e : Int}
     (hall : ∀ b ∈ txt, b.safe now = true ∧ b.eval now σ row = true)
@@ -278,10 +278,10 @@ theorem end_sound {now : Int} {σ : Valuation} {row : Row} {txt : List BAtom} {e
           | exact cmp_sound_end hsafe hev (Or.inr hc) rfl (Or.inl rfl) (by simpa [Rhs.go] using hgo)
           | exact cmp_sound_end hsafe hev (Or.inr hc) rfl (Or.inr rfl) (by simpa [Rhs.go] using hgo)
     all_goals
-      obtain ⟨c, o, n, u, hm, hc, ho, hgo⟩ := relPat_some hmem.symm
+      obtain ⟨c, o, n, u, cs, hm, hc, ho, hgo⟩ := relPat_some hmem.symm
       obtain ⟨hsafe, hev⟩ := hall _ hm
       simp only [Bool.false_eq_true, if_false] at ho
-      exact cmp_sound_end hsafe hev (Or.inl hc) rfl ho (by simp [Rhs.go, hgo])
+      exact cmp_sound_end hsafe hev (Or.inl hc) rfl ho hgo
 
 /-- a qualifying row lies inside the extracted range (in the sense the path loop needs). -/
 theorem range_sound {now : Int} {σ : Valuation} {p : Pred} {ds : Dataset} {row : Row} {s e : Int}
@@ -490,7 +490,7 @@ theorem C18_relative_month_witness :
     let now : Int := 1711886400000000000
     let ds : Dataset := [{ part := .hour 474802, rows := [mkRow 1709289000000000000] }, { part := .hour 474829, rows := [mkRow 1709386200000000000] }]
     let hi : Rhs := .lit { fmt := 2, y := 2024, mo := 3, d := 2, hh := 14, mi := 0, ss := 0, frac := 0, off := 0 }
-    let p := Pred.and (timeCmp .ge (.rel false 1 .month)) (timeCmp .lt hi)
+    let p := Pred.and (timeCmp .ge (.rel false 1 .month false)) (timeCmp .lt hi)
     WellPlaced ds ∧ relGo now false 1 .month ≠ relDb now false 1 .month ∧
       runPruned now σ0 p ds ≠ runFull now σ0 p ds := by
   decide
